@@ -91,6 +91,8 @@ def selections(d, kinds):
     out['and'] = out['range'] & out['inequality']
     out['not-slice'] = ~out['slice']
     out['multi-or'] = S.MultiOrState([out['range'], out['mask'], out['roi']])
+    # many-way or whose first member keeps its masks memoised (the members are the very objects above)
+    out['multi-or-memo'] = S.MultiOrState([out['inequality'], out['category'], out['element'], out['range']])
     out['xor-deep'] = (out['slice-stepped'] ^ out['inequality']) | (~out['range'])
     return out
 
@@ -133,16 +135,20 @@ def check_values(R, d, kname, cid, views):
                    "import numpy as np\nfrom numpy import array\nfrom bounded.c04_views import replay_values\nsys.exit(replay_values(%r, %r, %r))\n" % (d.label, kname, v))
 
 
-def check_masks(R, d, sname, state, views):
+def check_masks(R, d, sname, state, views, ref_state=None, skip=()):
+    """returns the views that failed; `skip`: views of this selection already reported by an earlier pass (the same input is reported once)"""
+    failed = []
     try:
-        full = np.asarray(d.get_mask(state))
+        full = np.asarray(d.get_mask(state if ref_state is None else ref_state))
     except Exception as e:
         R.fail("view|mask-full|%s|exception:%s" % (sname, type(e).__name__), "dataset %s selection %s raised %s: %s" % (d.label, sname, type(e).__name__, e), None)
-        return
+        return failed
     if full.shape != d.shape:
         R.fail("view|mask-full|%s|shape" % sname, "dataset %s selection %s: full mask has shape %r" % (d.label, sname, full.shape), None)
-        return
+        return failed
     for v in views:
+        if repr(v) in skip:
+            continue
         try:
             exp = ref_index(full, v)
         except IndexError:
@@ -156,8 +162,10 @@ def check_masks(R, d, sname, state, views):
             err, det = 'exception:%s' % type(e).__name__, "raised %s: %s" % (type(e).__name__, e)
         R.count(('m', d.label, sname, repr(v)) if 0 < int(np.sum(exp)) < max(np.size(exp), 1) else None, 'masks')
         if err:
+            failed.append(repr(v))
             R.fail("view|mask|%s|%s|%s" % (sname, vk, err), "dataset %s selection %s, view %r: %s" % (d.label, sname, v, det),
                    "import numpy as np\nfrom numpy import array\nfrom bounded.c04_views import replay_mask\nsys.exit(replay_mask(%r, %r, %r))\n" % (d.label, sname, v))
+    return failed
 
 
 def replay_values(dlabel, kname, v):
@@ -177,8 +185,17 @@ def replay_values(dlabel, kname, v):
 def replay_mask(dlabel, sname, v):
     for d, kinds, keep in datasets():
         if d.label == dlabel:
-            st = selections(d, kinds)[sname]
-            full = np.asarray(d.get_mask(st))
+            sels = selections(d, kinds)
+            second = sname.endswith('@second-pass')
+            st = sels[sname.split('@')[0]]
+            if second:
+                # as in the sweep: the selection and every combination containing it evaluated with this view first
+                for x in sels.values():
+                    try:
+                        d.get_mask(x, view=v)
+                    except Exception:
+                        pass
+            full = np.asarray(d.get_mask(st.copy() if second else st))
             try:
                 got = np.asarray(d.get_mask(st, view=v))
             except Exception as e:
@@ -437,8 +454,14 @@ def run(tier, seed, R):
             views += [slice(1, 4), slice(None, None, 2), 2, -1, np.array([0, 3, 3]), np.array([True, False, True, True, False])]
         for kname, cid in kinds.items():
             check_values(R, d, kname, cid, views)
-        for sname, st in selections(d, kinds).items():
-            check_masks(R, d, sname, st, views)
+        sels = selections(d, kinds)
+        first = {}
+        for sname, st in sels.items():
+            first[sname] = check_masks(R, d, sname, st, views)
+        # second pass over the selections whose masks are memoised per view, after every combination containing them has been evaluated
+        # with every view: each view must still give the full mask (of an independent copy) indexed by it
+        for sname in ('inequality', 'category', 'element', 'and', 'categorical-roi', 'not-slice'):
+            check_masks(R, d, sname + '@second-pass', sels[sname], views, ref_state=sels[sname].copy(), skip=first[sname] or ())
     fresh_first(R, rng, tier)
     aligned_datasets(R, rng, tier)
     indexed(R, rng, tier)
